@@ -10,13 +10,12 @@ namespace Wsp.Cmd
 open Wsp.Handle
 
 /-- path ↦ bytes of the file on disk -/
-abbrev Tree := List (String × Bytes)
+abbrev Tree := String → Option Bytes
 
-def Tree.get (t : Tree) (p : String) : Option Bytes := (t.find? fun e => e.1 = p).map (·.2)
-
-def Tree.set (t : Tree) (p : String) (b : Bytes) : Tree :=
-  if (t.find? fun e => e.1 = p).isSome then t.map fun e => if e.1 = p then (p, b) else e
-  else t ++ [(p, b)]
+def Tree.empty : Tree := fun _ => none
+def Tree.get (t : Tree) (p : String) : Option Bytes := t p
+def Tree.set (t : Tree) (p : String) (b : Bytes) : Tree := fun q => if q = p then some b else t q
+def Tree.remove (t : Tree) (p : String) : Tree := fun q => if q = p then none else t q
 
 /-- how a command ends -/
 inductive Outcome
@@ -342,6 +341,24 @@ def sumDiff (o : FOps) (t : Tree) (files : List String) (dst : String) (w : Wind
       let (sp, dp) := diffLists o false ls ld
       if allEmpty sp && allEmpty dp then (.ok, [])
       else (.diffFound, diffRecs o hs.archives.length sp dp)
+
+/-- ⟦GenerateCommand.execute⟧ : `points` is the randomly generated list of points per
+    archive (a universally quantified parameter; `none` = no fill).  Create refuses an
+    existing file. -/
+def generate (o : FOps) (t : Tree) (dst : String) (c : CopyOpts) (points : Option (List (List Point))) (now : Nat) :
+    Tree × Outcome :=
+  match t.get dst with
+  | some _ => (t, .err .exists_)
+  | none =>
+    match createHandle o c.agg c.xff c.lay with
+    | .error e => (t, .ofFault e)
+    | .ok (disk, h) =>
+      match points with
+      | none => (t.set dst h.view, .ok)
+      | some pl =>
+        match updateAll o h now 0 pl with
+        | .error e => (t.set dst disk, .ofFault e)    -- the file exists with its final length, unsynced
+        | .ok h' => (t.set dst h'.view, .ok)
 
 /-! ### glob mode: one command over several files / items -/
 
